@@ -188,7 +188,18 @@ def gen_data(rng):
         if kind == "vector" and mexp == 0 and case["ctor"] == "data" and rng.random() < 0.2:
             # integer-dtype data matrix (all entries are integers here); with inplace=True the code cannot centre /
             # rescale it in place and raises a numpy casting TypeError - see run_model_case
-            case["dtype"] = "int64"
+            # (repaired by e25cf8a).  Narrow integer dtypes as well: uncentred, `X - zeros(dtype)` used to stay
+            # integer and the scatter X^T X overflowed silently (uint8 pixel matrices)
+            dt = rng.choice(["int64", "int64", "int32", "int16", "int8", "uint8"])
+            lo = min(min(r) for r in X)
+            if dt == "uint8" and lo < 0 and not centre:
+                X = [[v - lo for v in r] for r in X]
+                case["X"] = X
+            hi = max(max(abs(v) for v in r) for r in X)
+            if (dt == "uint8" and min(min(r) for r in X) < 0) or hi > {"int8": 120, "uint8": 120, "int16": 32000,
+                                                                        "int32": 2 ** 31 - 8}.get(dt, 2 ** 62):
+                dt = "int64"
+            case["dtype"] = dt
         if kind == "image":
             # (channels, height, width) with c*h*w = d: single- and multi-channel templates
             shapes = [(c, h, d // (c * h)) for c in (1, 2, 3) for h in (1, 2, 3) if d % (c * h) == 0]
@@ -660,16 +671,10 @@ def run_model_case(ctx, case, rng, cid, lines, expect):
     try:
         ad = build_model(case)
     except Exception as e:
-        if case.get("dtype") == "int64" and case["inplace"] and isinstance(e, TypeError) and "cast" in str(e).lower():
-            # integer data + inplace=True (the default): `X -= m` / `U *= w` cannot be stored in an integer array and
-            # numpy refuses loudly.  No model exists, so no clause of the property is touched; recorded, with a
-            # proposed repair in notes/fixes/C10-int-dtype-inplace.diff (after which the case builds and is checked)
-            ctx.count("int-dtype:inplace-raises-casting-TypeError")
-            return
         ctx.fail(site, "raises", "building the model raised %s: %s" % (type(e).__name__, e), rp)
         return
-    if case.get("dtype") == "int64":
-        ctx.count("int-dtype:built")
+    if case.get("dtype"):
+        ctx.count("int-dtype:built:" + case["dtype"])
     M = ad.m
     mex, Xcex, Cex = exact_stats(case)
     mexf = np.array([float(v) for v in mex])
